@@ -72,7 +72,9 @@ class StopWorld(World):
     def gen_plan(self, seed, tier, config="default"):
         rng = mk_rng(self.name, seed)
         g = common.np_gen(rng)
-        kinds = list(KINDS)
+        # solvers with a tol-driven stopping rule get more weight: the early-stop
+        # clause (S5) only has purchase there
+        kinds = list(KINDS) + ["gm"] * 4 + ["pdhg"] * 2 + ["cg", "lls"]
         kind = rng.choice(kinds)
         if rng.random() < (0.08 if tier == "thorough" else 0.04):
             kind = "mri"
@@ -81,6 +83,8 @@ class StopWorld(World):
         m = rng.randint(n, 6)
         sysd = {"kind": kind, "complex": cplx, "n": n, "m": m}
         mi = rng.choice([0, 1, 1, 2, 2, 3, 4, 5, 6, 8, 10, 12])
+        if kind in ("gm", "pdhg") and rng.random() < 0.6:
+            mi = rng.choice([8, 12, 16, 20])
         sysd["max_iter"] = mi
         M = common.randn(g, (m, n), cplx, round_=3)
         y = common.randn(g, (m,), cplx, round_=3)
@@ -91,6 +95,10 @@ class StopWorld(World):
         sysd["gkind"] = rng.choice(["none", "l1", "l1", "l2", "box"]) if not cplx else rng.choice(["none", "l1", "l1", "l2"])
         sysd["lam"] = float(round(10 ** rng.uniform(-1.5, 0.8), 4))
         sysd["lo"], sysd["hi"] = -0.25, 0.5
+        if rng.random() < 0.5:
+            # tight boxes: every coordinate can be pinned while momentum is still active
+            w = rng.choice([0.3, 0.1, 0.03])
+            sysd["lo"], sysd["hi"] = -w, round(w * rng.choice([1, 2]), 3)
         sysd["rng_seed"] = rng.randrange(2 ** 31)
         sysd["show_pbar"] = rng.random() < 0.7
         if kind in ("power", "maxeig"):
@@ -104,7 +112,9 @@ class StopWorld(World):
             sysd["x0"] = codec.enc(common.randn(g, (n,), cplx, round_=3) * rng.choice([1e-3, 1, 50]))
         if kind == "gm":
             sysd["c"] = rng.choice([1.0, 0.5])
-            sysd["accelerate"] = rng.random() < 0.5
+            sysd["accelerate"] = rng.random() < 0.6
+            if sysd["gkind"] == "none" and rng.random() < 0.6:
+                sysd["gkind"] = "box" if not cplx else "l1"
         if kind == "cg":
             ev = [round(10 ** rng.uniform(0, 2), 3) for _ in range(n)]
             if rng.random() < 0.3:
